@@ -124,12 +124,19 @@ BerStr(tag, s) == [t |-> "ber", ty |-> "str", tag |-> tag, s |-> s]
 BerSet(a) == [t |-> "ber", ty |-> "set", a |-> a]
 BerCtx(tag, a) == [t |-> "ber", ty |-> "ctx", tag |-> tag, a |-> a]
 BerOid(arcs) == [t |-> "ber", ty |-> "oid", arcs |-> arcs]
+BerReal(neg, n, base, f, e) == [t |-> "ber", ty |-> "real", neg |-> neg, n |-> n, base |-> base, f |-> f, e |-> e]
+\* every base x every scaling factor x exponents of every octet count x a few mantissas; all values exact in binary64 and not integers
+\* where a small exponent allows (an integral float would come back as an integer, which compares equal anyway)
+RealInRange(v) == LET x == Len(SigBits(BE(v.n, 4))) - 1 + BRn!RealShift(v) + 1023 IN x >= 1 /\ x <= 2046      \* a normal binary64
+BerReals == {v \in {BerReal(neg, n, b, f, e) : neg \in BOOLEAN, n \in {1, 5, 1023}, b \in {2, 8, 16}, f \in 0 .. 3,
+                                        e \in {IntV(TRUE, <<3>>), IntV(FALSE, <<>>), IntV(FALSE, <<2>>), IntV(TRUE, <<130>>), IntV(TRUE, <<1, 4>>)}} : RealInRange(v)}
 BerUniverse(P) ==
     IF P = "atoms" THEN Scalars \cup {v \in IntsAll : ~v.neg \/ SFits(v, 8)}
                         \cup {Str(Rep(n, X)) : n \in {0, 1, 2, 127, 128, 255, 256, 65535, 65536}} \cup {Str(<<97, 98>>), Str(<<195, 169, 240, 159, 152, 128>>)}
                         \cup {Bin(Rep(n, 65)) : n \in {0, 1, 127, 128, 256}} \cup {Bin(<<104, 105>>), Bin(<<0, 1, 127>>)}
                         \cup {BerStr(19, <<97, 32, 98>>), BerStr(22, <<97, 64, 98>>), BerStr(22, <<>>)}
                         \cup {BerOid(<<1, 2, 840, 113549>>), BerOid(<<2, 5, 4, 3>>), BerOid(<<0, 39>>), BerOid(<<1, 3, 6, 1, 4, 1, 311, 21, 20>>)}
+                        \cup BerReals
     ELSE D1S(IF Wide THEN {Null, One, Str(<<97>>)} ELSE {Null, One}) \cup {Arr(<<Str(<<97>>)>>), Arr(<<Str(<<97>>), One>>)}
          \cup {Arr(<<x>>) : x \in {Arr(<<>>), Arr(<<One>>)}} \cup {Arr(<<Arr(<<>>), Str(<<>>)>>)}
          \cup {BerSet(<<>>), BerSet(<<One, Null>>), BerCtx(0, <<One>>), BerCtx(3, <<>>), BerCtx(31, <<Null>>), BerCtx(200, <<One, Str(<<97>>)>>),
